@@ -88,6 +88,13 @@ def _f32_equal(got, want):
     return eq(rnd(got), want)
 
 
+def eq_key(a, b):
+    try:
+        return type(a) is type(b) and a == b
+    except Exception:
+        return a is b
+
+
 def diagnose_hist(ls, mechanism, raw):
     from .model import klt
     op = raw.get('op')
@@ -130,6 +137,16 @@ def diagnose_hist(ls, mechanism, raw):
         if (impl == 'py' and ls.fam.vc == 'F' and ro[0] == 'ok' == mo[0]
                 and _f32_equal(ro[1], mo[1])):
             return 'F08'
+    if mechanism == 'structure-after-refused-load' and walk is not None:
+        # F38: the call deletes the ONLY key of a leaf of a tree with more
+        # than one leaf: the key is gone from the leaf before the nodes
+        # needed to unlink the emptied leaf are loaded
+        if op in ('delitem', 'pop', 'popd', 'remove', 'discard') and \
+                len(walk.leaf_keys) > 1 and raw.get('args'):
+            k = raw['args'][0]
+            for lk in walk.leaf_keys:
+                if len(lk) == 1 and eq_key(lk[0], k):
+                    return 'F38'
     if mechanism == 'contents-mismatch':
         if (impl == 'py' and ls.fam.vc == 'F' and 'got' in raw
                 and _f32_equal(raw['got'], raw['want'])):
